@@ -35,16 +35,16 @@ type c12Req struct {
 }
 
 type c12Case struct {
-	Version     int      `json:"version"`
-	Comp        string   `json:"comp,omitempty"`
-	Unsupported []int    `json:"unsupported"`
-	Override    int      `json:"override"`
-	Filler      int      `json:"filler_prepares,omitempty"` // distinct statements PREPAREd between the PREPAREs and the requests
+	Version     int    `json:"version"`
+	Comp        string `json:"comp,omitempty"`
+	Unsupported []int  `json:"unsupported"`
+	Override    int    `json:"override"`
+	Filler      int    `json:"filler_prepares,omitempty"` // distinct statements PREPAREd between the PREPAREs and the requests
 	// Immediate: every statement is PREPAREd right before its EXECUTE, whose frame leaves the moment the PREPARED
 	// result (describing WideMeta result columns) has arrived
-	Immediate bool `json:"prepare_then_execute_at_once,omitempty"`
-	WideMeta  int  `json:"prepared_result_columns,omitempty"`
-	Reqs        []c12Req `json:"requests"`
+	Immediate bool     `json:"prepare_then_execute_at_once,omitempty"`
+	WideMeta  int      `json:"prepared_result_columns,omitempty"`
+	Reqs      []c12Req `json:"requests"`
 }
 
 func c12Contains(xs []int, x int) bool {
